@@ -82,7 +82,7 @@ func runSSCrash(r *common.Run) {
 	}
 	scs = append(scs, scenario{"shrink", "ondisk", config.NoCompression}, scenario{"shrink", "ondisk", config.Snappy},
 		scenario{"save-commit", "concurrent", config.NoCompression}, scenario{"receive", "concurrent", config.Snappy})
-	plans := r.Pick(12, 100) // different entry streams / cut points per scenario
+	plans := r.Pick(24, 100) // different entry streams / cut points per scenario
 	exhaustive := true
 	layouts := map[string]bool{}
 	caseNo := 0
